@@ -141,6 +141,7 @@ type Exec struct {
 	callLog    []callRec
 	curCallee  *ssa.Function
 	allAllocs  []string
+	pointeesOnly bool
 }
 
 type callRec struct {
@@ -164,6 +165,7 @@ func (e *Exec) logCall(key string, res Val) {
 }
 
 type modTarget struct {
+	pointees *Val
 	addr  *Addr
 	elems *Val
 	mp    *Val
